@@ -138,9 +138,11 @@ def run(ctx):
             if labels != list(range(nrows)):
                 df.index = labels
                 ctx.bump('labels.unique' if len(set(labels)) == nrows else 'labels.repeated')
-            rownum = rng.random() < 0.35
+            rownum = rng.random() < 0.4
             if rownum:
                 opts['rownumber_is_index'] = False
+                if rng.random() < 0.7:
+                    opts['index'] = True
             desc['row_labels'] = labels if labels != list(range(nrows)) else 'default'
             desc['options'] = dict(opts)
             work_df = df.copy()
